@@ -54,7 +54,7 @@ impl BinaryData {
             BinaryData::Zeroed(len) => *len,
             BinaryData::Slice { length, .. } => *length,
             BinaryData::Concat { total_length, .. } => *total_length,
-            BinaryData::Tiled { unit, count } => unit.len() * count,
+            BinaryData::Tiled { unit, count } => unit.len().saturating_mul(*count),
         }
     }
 
